@@ -1,7 +1,9 @@
 //! Shared helpers for the per-property harness binaries (src/bin/*.rs).
 //! Line protocol convention: one case per stdin line, one canonical result per stdout line.
 
+pub mod catalogue;
 pub mod conn;
+pub mod wirelib;
 
 use std::io::{BufRead, Write};
 
